@@ -11,7 +11,10 @@ MaxLen == 6
 \* ---- sampling (binding A) -------------------------------------------------------------------------
 Vocab == << <<97, 98, 99>>, <<65, 98, 99>>, <<98, 39, 97, 49>>, <<97, 95, 49>>, <<97, 98>> >>   \* abc Abc b'a1 a_1 ab(short)
 Seps == << <<32>>, <<44>>, <<39, 39>>, <<39>>, <<45>>, <<46, 32>>, <<32, 39>>, <<10>> >>
-RandWord(x) == Vocab[RandomElement(1..Len(Vocab))]
+\* words at the upper length boundary of the index: 83, 84 (two of them), 85 characters, and one in capitals
+LongVocab == << Rep(83, 113), Rep(84, 113), <<90>> \o Rep(83, 107), Rep(85, 113), Rep(84, 81) >>
+RandWord(x) == IF RandomElement(1..5) = 1 THEN LongVocab[RandomElement(1..Len(LongVocab))]
+               ELSE Vocab[RandomElement(1..Len(Vocab))]
 RandSep(x) == Seps[RandomElement(1..Len(Seps))]
 RECURSIVE RandToks(_)
 RandToks(n) == IF n = 0 THEN <<>> ELSE RandWord(n) \o (IF n > 1 THEN RandSep(n) ELSE <<>>) \o RandToks(n - 1)
@@ -39,9 +42,12 @@ SNext == /\ phase = 0
             tb' = [i \in 1..n |-> [id |-> i, cols |-> IF multi' THEN <<RandCol(i), RandCol(i + 10)>> ELSE <<RandCol(i)>>]]
          /\ qs' = [i \in 1..4 |-> RandQuery(i)]
 
-SModelOK == TokenizerSane(d) /\ \A i \in DOMAIN qs : TokenizerSane(qs[i])
+SModelOK == TokenizerSane(d) /\ \A i \in DOMAIN qs : (Len(qs[i]) <= 30 => TokenizerSane(qs[i]))
 
-Emit == PrintT("CASE " \o ToJson([coll |-> coll', multi |-> multi', rows |-> tb',
-                                  qs |-> [i \in DOMAIN qs' |-> [q |-> qs'[i], exp |-> MatchIds(tb', qs'[i], coll'),
-                                                                  words |-> Words(qs'[i], coll')]]]))
+\* the word set of every row and of every query is computed once (MatchIdsW = MatchIds, see FullText)
+RowDoc(r, mu) == IF mu THEN Doc(r.cols) ELSE Doc(<<r.cols[1]>>)
+Emit == LET dw == TLCEval([k \in DOMAIN tb' |-> Words(RowDoc(tb'[k], multi'), coll')])
+            qw == TLCEval([i \in DOMAIN qs' |-> Words(qs'[i], coll')])
+        IN PrintT("CASE " \o ToJson([coll |-> coll', multi |-> multi', rows |-> tb',
+                                     qs |-> [i \in DOMAIN qs' |-> [q |-> qs'[i], exp |-> MatchIdsW(tb', dw, qw[i]), words |-> qw[i]]]]))
 =============================================================================
